@@ -290,8 +290,31 @@ func genAdderProgram(rng *rand.Rand, family string, float bool, mutex bool) (ths
 			ths = append(ths, athread{ops: ops, phase: phase})
 		}
 	}
+	addVal := func(x int64) aop {
+		kind := "add"
+		if (x == one || x == minusOne) && rng.Intn(2) == 0 {
+			kind = map[int64]string{one: "inc", minusOne: "dec"}[x]
+		}
+		id := bit
+		bit++
+		xs = append(xs, x)
+		return aop{kind: kind, x: x, id: id}
+	}
 	maint := func(phase int) {
 		var ops []aop
+		if float && rng.Intn(5) == 0 {
+			// exact cancellation across cells: after a clear, a huge value and its negation (they usually land in different cells of an
+			// existing table), the total is exactly what the next Reset / SumAndReset / Store(0) sets anyway - the clear must still
+			// clear: small updates afterwards are exact only if nothing huge is left anywhere. Every partial sum is representable.
+			big := bf([]float64{1 << 60, -(1 << 62), 0x1p900, 1 << 54}[rng.Intn(4)])
+			ops = append(ops, aop{kind: "reset"}, addVal(big), addVal(bf(-fb(big))), aop{kind: "sum"},
+				[]aop{{kind: "reset"}, {kind: "sar"}, {kind: "store", x: bf(0)}}[rng.Intn(3)])
+			for k := 1 + rng.Intn(3); k > 0; k-- {
+				ops = append(ops, addVal([]int64{one, minusOne, one, bf(0.125), bf(3)}[rng.Intn(5)]), aop{kind: "sum"})
+			}
+			ths = append(ths, athread{ops: ops, phase: phase})
+			return
+		}
 		for k := 1 + rng.Intn(4); k > 0; k-- {
 			switch rng.Intn(6) {
 			case 0:
@@ -413,7 +436,9 @@ func runAdder(fs *flag.FlagSet, args []string) {
 			return
 		}
 		layers := map[string]bool{"a": true, "r": true, "m": true}
+		vsched.PostOp = rng.Intn(4) == 0 || (family == "grow" && rng.Intn(2) == 0) // a quarter of the runs (grow: more): a yield after every atomic access as well
 		res := vsched.Run(out, layers, bodies, 200000, s.pick)
+		vsched.PostOp = false
 		fmt.Fprintf(out, "end\n")
 		msg := ""
 		if res.Budget || res.Deadlock {
